@@ -430,6 +430,113 @@ theorem funcMap_injective {α : Type} (key : α → Nat) (nif : Nat) (fs : List 
     subst this
     rw [h3] at h3'
     injection h3'
+theorem insertBy_perm {α : Type} (le : α → α → Bool) (x : α) : ∀ (l : List α), (insertBy le x l).Perm (x :: l)
+  | [] => by simp [insertBy]
+  | y :: r => by
+    simp only [insertBy]
+    split
+    · exact List.Perm.refl _
+    · exact ((insertBy_perm le x r).cons y).trans (List.Perm.swap x y r)
+
+theorem sortBy_perm {α : Type} (le : α → α → Bool) (l : List α) : (sortBy le l).Perm l := by
+  induction l with
+  | nil => simp [sortBy]
+  | cons x xs ih =>
+    simp only [sortBy, List.foldr_cons] at ih ⊢
+    exact (insertBy_perm le x _).trans (ih.cons x)
+
+theorem distinctIds_aux_nodup (l : List Nat) : ∀ (acc : List Nat), acc.Nodup →
+    (l.foldl (fun acc x => if acc.contains x then acc else acc ++ [x]) acc).Nodup := by
+  induction l with
+  | nil => intro acc h; simpa using h
+  | cons x r ih =>
+    intro acc h
+    simp only [List.foldl_cons]
+    split
+    · exact ih acc h
+    · rename_i hc
+      apply ih
+      rw [List.nodup_append]
+      refine ⟨h, by simp, ?_⟩
+      intro a ha b hb
+      simp only [List.mem_singleton] at hb
+      subst hb
+      intro hab
+      subst hab
+      exact hc (by simpa using ha)
+
+theorem distinctIds_nodup (l : List Nat) : (distinctIds l).Nodup :=
+  distinctIds_aux_nodup l [] List.nodup_nil
+
+/-- **the emitted function-name map has one entry per index**: when the id → index map is
+    injective, no two names land on the same function index -/
+theorem funcNamesOut_nodup (l : List (Nat × String)) (ρ : List (Nat × Nat))
+    (hinj : ∀ a b x : Nat, assoc ρ a = some x → assoc ρ b = some x → a = b) :
+    ((funcNamesOut l ρ).map (·.1)).Nodup := by
+  unfold funcNamesOut sortNames
+  refine ((sortBy_perm _ _).map _).nodup_iff.2 ?_
+  generalize hd : distinctIds (l.map (·.1)) = ids
+  have hn : ids.Nodup := hd ▸ distinctIds_nodup _
+  clear hd
+  induction ids with
+  | nil => simp
+  | cons i r ih =>
+    have hn' := List.nodup_cons.1 hn
+    simp only [List.filterMap_cons]
+    split
+    · exact ih hn'.2
+    · rename_i p hp
+      simp only [List.map_cons, List.nodup_cons]
+      refine ⟨?_, ih hn'.2⟩
+      intro hmem
+      simp only [List.mem_map, List.mem_filterMap] at hmem
+      obtain ⟨q, ⟨i', hi', hq⟩, hq1⟩ := hmem
+      -- both i and i' map to the same index
+      cases hl : lastName l i with
+      | none => simp [hl] at hp
+      | some s =>
+        cases ha : assoc ρ i with
+        | none => simp [hl, ha] at hp
+        | some j =>
+          simp only [hl, ha, Option.some.injEq] at hp
+          cases hl' : lastName l i' with
+          | none => simp [hl'] at hq
+          | some s' =>
+            cases ha' : assoc ρ i' with
+            | none => simp [hl', ha'] at hq
+            | some j' =>
+              simp only [hl', ha', Option.some.injEq] at hq
+              subst hp; subst hq
+              simp only at hq1
+              subst hq1
+              have := hinj _ _ _ ha ha'
+              subst this
+              exact hn'.1 hi'
+theorem keepNames_nodup (l : List (Nat × String)) : ((keepNames l).map (·.1)).Nodup := by
+  unfold keepNames sortNames
+  refine ((sortBy_perm _ _).map _).nodup_iff.2 ?_
+  generalize hd : distinctIds (l.map (·.1)) = ids
+  have hn : ids.Nodup := hd ▸ distinctIds_nodup _
+  clear hd
+  induction ids with
+  | nil => simp
+  | cons i r ih =>
+    have hn' := List.nodup_cons.1 hn
+    simp only [List.filterMap_cons]
+    split
+    · exact ih hn'.2
+    · rename_i p hp
+      simp only [List.map_cons, List.nodup_cons]
+      refine ⟨?_, ih hn'.2⟩
+      intro hmem
+      simp only [List.mem_map, List.mem_filterMap, Option.map_eq_some_iff] at hmem hp
+      obtain ⟨q, ⟨i', hi', s', _, hq⟩, hq1⟩ := hmem
+      obtain ⟨s, _, hp⟩ := hp
+      subst hp; subst hq
+      simp only at hq1
+      subst hq1
+      exact hn'.1 hi'
+
 /-- everything `roundTripModule` returns, as equations on the components -/
 structure RTComponents (m o : ModuleM) : Prop where
   tables : o.tables = m.tables
@@ -465,6 +572,8 @@ structure RTComponents (m o : ModuleM) : Prop where
      | .active 0 _ => d'.flag = 0
      | .active _ _ => d'.flag = 2)
   noDataNoCount : m.datas = [] → o.dataCount = none
+  -- a data-count section, when written, states the number of data segments
+  dataCountExact : ∀ n, o.dataCount = some n → n = m.datas.length ∧ o.datas.length = n
   funcsLen : o.funcs.length = o.code.length
   -- one map renames the function operands of exports and of the start section
   funcRenaming : ∃ ρ : List (Nat × Nat),
@@ -496,7 +605,7 @@ theorem roundTrip_components (m o : ModuleM) (h : roundTripModule m = some o) : 
           simp only [Option.some.injEq] at h
           subst h
           refine ⟨rfl, rfl, mapM_some_length _ _ _ him, ?_, mapM_some_length _ _ _ hgl, ?_,
-            mapM_some_length _ _ _ hex, ?_, mapM_some_length _ _ _ hel, mapM_some_length _ _ _ hda, ?_, ?_, ?_, ?_, ?_, ?_, ?_⟩
+            mapM_some_length _ _ _ hex, ?_, mapM_some_length _ _ _ hel, mapM_some_length _ _ _ hda, ?_, ?_, ?_, ?_, ?_, ?_, ?_, ?_⟩
           · intro k i hk
             obtain ⟨j, hj, hf⟩ := mapM_some_get _ _ _ him k i hk
             refine ⟨j, hj, ?_⟩
@@ -554,6 +663,14 @@ theorem roundTrip_components (m o : ModuleM) (h : roundTripModule m = some o) : 
               | succ n => exact this.2
           · intro hd
             simp [hd]
+          · intro n hn
+            simp only at hn
+            split at hn
+            · cases hn
+            · split at hn
+              · injection hn with hn
+                exact ⟨hn.symm, by rw [← hn]; exact mapM_some_length _ _ _ hda⟩
+              · cases hn
           · simp
           · refine ⟨(List.range (importedCount m "f")).map (fun i => (i, i)) ++
               oc.funcs.zipIdx.map (fun p => (p.1.id, importedCount m "f" + p.2)), ?_, ?_, ?_, ?_, ?_⟩
